@@ -1,9 +1,9 @@
 INIT Init
 NEXT Step
 CONSTANTS
- DrainBug = TRUE
- LinkCode = TRUE
- DupPathBug = TRUE
+ DrainBug = FALSE
+ LinkCode = FALSE
+ DupPathBug = FALSE
  Ids <- SimIds
-INVARIANTS PropHoldsButKnown KnownReproduced Ordered PassBound
+INVARIANTS PropHolds PropExact Ordered PassBound
 CHECK_DEADLOCK FALSE
